@@ -49,6 +49,16 @@ func decorate(e *errT, inner error) error {
 func mkErr(e *errT) error {
 	switch e.kind {
 	case "base":
+		// handlers pass on the errors of readers and connections: the well-known sentinel values, not copies of
+		// their texts (the text is what the model sees; errors.Is sees the difference)
+		switch string(e.a) {
+		case "EOF":
+			return io.EOF
+		case "unexpected EOF":
+			return io.ErrUnexpectedEOF
+		case "use of closed network connection":
+			return net.ErrClosed
+		}
 		return errors.New(string(e.a))
 	case "wrap":
 		// fmt.Errorf("pre%wpost") with literal percent signs escaped
@@ -155,6 +165,7 @@ type recorder struct {
 	lastCtx  context.Context
 	kept     []keptT
 	keptPs   []keptParamsT
+	armed    string
 }
 
 // data handed to callbacks, retained as handed over (it may alias the reader's
@@ -355,6 +366,11 @@ func (r *recorder) checkCtx(ctx context.Context, command bool) {
 }
 
 func (r *recorder) add(kind string, parts ...any) {
+	if kind != "ctxbad" && r.armed == "" {
+		// a deadline armed while callbacks of the session run (crypto/tls arms one itself when it closes:
+		// that is after the last callback)
+		r.armed = r.conn.armedDeadline()
+	}
 	off, turn := r.conn.outLenTurn()
 	all := append([]any{kind, off, turn}, parts...)
 	r.events = append(r.events, sx(all...))
@@ -554,6 +570,14 @@ func buildServer(c *cfgT, reg *registry, extra ...wire.OptionFn) (*wire.Server, 
 			return nil
 		}))
 	}
+	switch {
+	case !c.tls && c.tlsEmpty == 1:
+		opts = append(opts, wire.TLSConfig(&tls.Config{}))
+	case !c.tls && c.tlsEmpty == 2:
+		opts = append(opts, wire.TLSConfig(&tls.Config{Certificates: []tls.Certificate{}}))
+	case !c.tls && c.tlsEmpty == 3:
+		opts = append(opts, wire.TLSConfig(&tls.Config{Certificates: make([]tls.Certificate, 0, 2)}))
+	}
 	if c.tls {
 		opts = append(opts, wire.TLSConfig(&tls.Config{Certificates: []tls.Certificate{testCert()}}))
 	}
@@ -657,6 +681,9 @@ func serveAsync(srv *wire.Server, conn *memConn, o *obsT) {
 
 func collect(conn *memConn, rec *recorder, o *obsT) {
 	rec.checkKept("at the end of the connection")
+	if rec.armed != "" {
+		rec.bad("a %s deadline set on the connection was still armed while callbacks of the session ran: the session depends on the clock", rec.armed)
+	}
 	if rec.reg != nil {
 		if d := rec.reg.paramsChanged(); d != "" {
 			rec.bad("the configured global parameter map was modified while serving (%s)", d)
